@@ -184,9 +184,17 @@ func (l *orderColumnsRow) Less(r *orderColumnsRow) bool {
 }
 
 func (l *orderColumnsRow) compare(tp Type, lval, rval Column, reverse bool) int {
-	// The per-type comparators assert rval to the dynamic type of lval. Values of
-	// different dynamic types (e.g. a JSON field that is a number in one row and
-	// a string in another) are not ordered: treat them as equal.
+	// The declared type of a column does not tell what its values are: every
+	// field access (json(value)['n'], list[1]) is declared as text. Values are
+	// compared as what they are, and values of different kinds (a JSON field
+	// that is a number in one row and a text in another) are ordered by kind:
+	// "equal to everything" is not transitive and would disorder the other rows
+	ltp, rtp := orderValueKind(tp, lval), orderValueKind(tp, rval)
+	if ltp != rtp {
+		return l.compareInt(int64(ltp), int64(rtp), reverse)
+	}
+	tp = ltp
+	// The per-type comparators assert rval to the dynamic type of lval
 	if reflect.TypeOf(lval) != reflect.TypeOf(rval) {
 		// A number column can mix integers and floats (sum() is an integer
 		// for the groups that only hold integers): they compare as numbers
@@ -209,6 +217,22 @@ func (l *orderColumnsRow) compare(tp Type, lval, rval Column, reverse bool) int 
 	default:
 		return 0
 	}
+}
+
+// orderValueKind is the type a value of a column declared as tp is compared as.
+// Text is what the column is declared to be (the aggregate plan renders the
+// number and Boolean group keys as text)
+func orderValueKind(tp Type, val Column) Type {
+	switch val.(type) {
+	case []byte, string:
+		return tp
+	case bool:
+		return TBOOL
+	}
+	if _, ok := orderNumberAsFloat(val); ok {
+		return TNUMBER
+	}
+	return TUNKNOWN
 }
 
 func orderNumberAsFloat(val Column) (float64, bool) {
